@@ -27,7 +27,7 @@ class Namer:
 
 @st.composite
 def scope_programs(draw, tier, fail=2, volatile=2, until=3, late_spawn=2, priv=1, flags=True,
-                   finally_spawn=1, nocatch=0, uncaught_blocks=0, finally_raise=0, sync=0, near_dates=0):
+                   finally_spawn=1, nocatch=0, uncaught_blocks=0, finally_raise=0, sync=0, near_dates=0, catch_priv=0):
     """A program whose roots own trees of nested Scope/until blocks.
 
     Weights (0..10) steer how often failures / volatile children / until-blocks / late spawns occur.
@@ -153,6 +153,12 @@ def scope_programs(draw, tier, fail=2, volatile=2, until=3, late_spawn=2, priv=1
         steps = [sl()] if draw(st.booleans()) else []
         b = block(0, [])
         steps.append(b)
+        if catch_priv and w(catch_priv):
+            # the root handles a privileged failure of its block as well (nothing encloses a root's block, so no abort
+            # signal can have been replaced by it) and goes on with another block: a signal left behind shows there
+            b['catch_priv'] = True
+            steps.append({'op': 'scope', 'name': nm.blk(), 'catch': True, 'children': [{'name': nm.act(), 'steps': [sl()]}],
+                          'body': [sl(), {'op': 'instant'}]})
         # the owner keeps running for a while; tries to spawn into the ended scope
         steps.append(sl())
         if w(5):
